@@ -1,12 +1,16 @@
 """Run C15 cases (CFI directive token streams emitted by spec/CfiEval.tla)
 through the real ``evaluate_cfi_directives`` and record what it did.
 
-case  = {id, toks, groups:[{blk, off, idx}], esc, abis:[name], rev, gap}
+case  = {id, toks, groups:[{blk, off, idx}], esc, abis:[name], rev, gap,
+         ins: "asc"|"desc"|"shuf", iseed, pb}
 trace = {id, toks, runs:[{abi, exc, ys:[{b, o, now, cp:{same, st}}]}]}
 
 For every ABI the case names, the token stream is rendered into the
 ``cfiDirectives`` table of a fresh gtirb module (one code block per ``blk``,
-directives keyed by ``Offset(block, off)``), the generator is driven to
+directives keyed by ``Offset(block, off)``; the entries are inserted in the
+order ``ins`` says - an aux-data mapping has no order, the evaluator has to
+visit the offsets of a block ascending anyway - and, with ``pb``, the IR goes
+through a protobuf save / load first), the generator is driven to
 exhaustion, and for every yield the runner records
   * ``now``: the yielded state projected immediately,
   * ``cp``:  ``copy.copy`` of the yielded state taken at yield time and
@@ -17,8 +21,10 @@ expected value: the judge is spec/TraceCfiEval.tla.
 """
 import copy
 import dataclasses
+import io
 import json
 import os
+import random
 import sys
 import traceback
 import uuid
@@ -57,10 +63,25 @@ ARGS = {
 DANGLING = uuid.UUID(int=0xC15)
 
 
+def insertion_order(case: dict, n: int) -> List[int]:
+    """Order in which the n table entries (groups) are inserted: the evaluator
+    must visit the offsets of a block in ascending order whatever this is."""
+    order = list(range(n))
+    ins = case.get("ins", "asc")
+    if ins == "desc":
+        order.reverse()
+    elif ins == "shuf":
+        random.Random(case.get("iseed", 0)).shuffle(order)
+    return order
+
+
 def render(case: dict, abi: str):
-    """Builds the module; returns (module, blocks in address order)."""
+    """Builds the module; returns (module, blocks carrying directives by
+    index, all code blocks in address order).  case["ins"] selects the
+    insertion order of the table entries; case["pb"] passes the whole IR
+    through a protobuf save / load before it is handed to the evaluator."""
     fmt, isa, order = ABIS[abi]
-    _, m = create_test_module(fmt, isa, byte_order=order)
+    ir, m = create_test_module(fmt, isa, byte_order=order)
     _, bi = add_text_section(m, address=0x1000)
     groups = case["groups"]
     nblk = max(g["blk"] for g in groups) + 1
@@ -69,10 +90,9 @@ def render(case: dict, abi: str):
         blocks.append(add_code_block(bi, b"\0" * BLOCK_SIZE))
         if case.get("gap"):  # a block without any directive in between
             add_code_block(bi, b"\0" * 4)
-    every = [b for b in sorted(bi.blocks, key=lambda b: b.offset)]
     syms: Dict[str, gtirb.Symbol] = {}
-    table = m.aux_data["cfiDirectives"].data
     toks = case["toks"]
+    entries = []
     for g in groups:
         ds = []
         for i in g["idx"]:
@@ -89,7 +109,20 @@ def render(case: dict, abi: str):
                     syms[t["sym"]] = add_symbol(m, t["sym"], gtirb.ProxyBlock(module=m))
                 ref = syms[t["sym"]]
             ds.append((".cfi_" + op, [t[f] for f in ARGS[op]], ref))
-        table[gtirb.Offset(blocks[g["blk"]], g["off"])] = ds
+        entries.append((gtirb.Offset(blocks[g["blk"]], g["off"]), ds))
+    table = m.aux_data["cfiDirectives"].data
+    for k in insertion_order(case, len(entries)):
+        table[entries[k][0]] = entries[k][1]
+    if case.get("pb"):
+        buf = io.BytesIO()
+        ir.save_protobuf_file(buf)
+        buf.seek(0)
+        ir = gtirb.IR.load_protobuf_file(buf)
+        (m,) = ir.modules
+        (bi,) = m.byte_intervals
+        by_off = {b.offset: b for b in bi.blocks}
+        blocks = [by_off[b.offset] for b in blocks]
+    every = [b for b in sorted(bi.blocks, key=lambda b: b.offset)]
     return m, blocks, every
 
 
@@ -179,7 +212,8 @@ def run_abi(case: dict, abi: str) -> dict:
 
 
 def run_case(case: dict) -> dict:
-    return {"id": case["id"], "toks": case["toks"],
+    return {"id": case["id"], "toks": case["toks"], "ins": case.get("ins", "asc"),
+            "pb": bool(case.get("pb")),
             "runs": [run_abi(case, a) for a in case["abis"]]}
 
 
